@@ -3,9 +3,9 @@ import FatVerif.Proofs.FileSimFatFind
 # FileSim, part 12: `alloc_cluster` on the FAT slice and `FileSystem::alloc_cluster`
 
 `run_findFree`: the scan of `find_free_cluster` (all three FAT types) = `findFreeV` on the decoded FAT of the image.
-`run_allocCluster`: `table.rs::alloc_cluster` finds `allocFindV (tabView …) hint total`, marks it end-of-chain and links
+`run_allocCluster_fine`: `table.rs::alloc_cluster` finds `allocFindV (tabView …) hint total`, marks it end-of-chain and links
 it after `prev`: the decoded FAT afterwards is `allocLinkV`; `NotEnoughSpace` iff there is no free entry.
-`run_allocClusterFs`: `FileSystem::alloc_cluster(prev, zero = false)` on top, with the FS-info bookkeeping.
+`run_allocClusterFs_fine`: `FileSystem::alloc_cluster(prev, zero = false)` on top, with the FS-info bookkeeping.
 -/
 namespace FatVerif.FileSim
 open FatVerif FatVerif.Fat
@@ -153,7 +153,7 @@ theorem run_allocFind (fs : FsState) (img : Img) (hg : Geo fs img.size) (s : Dis
       exact ⟨d1, hs1, rfl⟩
 
 /-- `table.rs::alloc_cluster` on the FAT slice of a volume already marked dirty -/
-theorem run_allocCluster (fs : FsState) (s : DiskSlice) (hs : IsFatSlice fs s) (prev hint : Option Nat) (d : Dev)
+theorem run_allocCluster_fine (fs : FsState) (s : DiskSlice) (hs : IsFatSlice fs s) (prev hint : Option Nat) (d : Dev)
     (hfa : d.failAt = none) (hcd : d.fs.curDirty = true) (hwf : d.img.WF) (hg : Geo fs d.img.size)
     (hh : ∀ n, hint = some n → 2 ≤ n) (hp : ∀ p, prev = some p → p < fs.totalClusters + 2) :
     (allocFindV (tabView fs d.img) hint fs.totalClusters = none ∧
@@ -165,6 +165,8 @@ theorem run_allocCluster (fs : FsState) (s : DiskSlice) (hs : IsFatSlice fs s) (
       tabView fs d'.img = allocLinkV (tabView fs d.img) prev c ∧
       (∀ q, (q < (fatSliceOf fs).beginOff ∨
           (fatSliceOf fs).beginOff + (fatSliceOf fs).mirrors * (fatSliceOf fs).size ≤ q) →
+        d'.img.getByte q = d.img.getByte q) ∧
+      (∀ q, ¬ FatEntryPos fs c q → (∀ p, prev = some p → ¬ FatEntryPos fs p q) →
         d'.img.getByte q = d.img.getByte q)) := by
   obtain ⟨d1, hs1, hout⟩ := run_allocFind fs d.img hg s hint d hs hfa rfl
   rw [allocCluster_eq]
@@ -195,9 +197,10 @@ theorem run_allocCluster (fs : FsState) (s : DiskSlice) (hs : IsFatSlice fs s) (
     cases hprev : prev with
     | none =>
       simp only
-      refine ⟨c, d2, s2, rfl, rfl, (DevStep.of_sameStore hs1).trans hu2.step, hu2.fs_eq.trans hs1.fs, ?_, ?_⟩
+      refine ⟨c, d2, s2, rfl, rfl, (DevStep.of_sameStore hs1).trans hu2.step, hu2.fs_eq.trans hs1.fs, ?_, ?_, ?_⟩
       · rw [htv2]; rfl
       · intro q hq; rw [hu2.frame q hq, hs1.img]
+      · intro q hq _; rw [hu2.fine q hq, hs1.img]
     | some p =>
       simp only
       have hpt := hp p hprev
@@ -213,9 +216,10 @@ theorem run_allocCluster (fs : FsState) (s : DiskSlice) (hs : IsFatSlice fs s) (
       have htv3 : tabView fs d3.img = updV (tabView fs d2.img) p (.data c) :=
         tabView_of_set hg2 d2.img d3.img hpt hrep_data (by rw [hu3.arr]; exact hset3)
       refine ⟨c, d3, s3, rfl, rfl, ((DevStep.of_sameStore hs1).trans hu2.step).trans hu3.step,
-        (hu3.fs_eq.trans hu2.fs_eq).trans hs1.fs, ?_, ?_⟩
+        (hu3.fs_eq.trans hu2.fs_eq).trans hs1.fs, ?_, ?_, ?_⟩
       · rw [htv3, htv2]; rfl
       · intro q hq; rw [hu3.frame q hq, hu2.frame q hq, hs1.img]
+      · intro q hq hqp; rw [hu3.fine q (hqp p rfl), hu2.fine q hq, hs1.img]
 
 /-- the FS-info bookkeeping is consistent with the FAT of the image: the next-free hint is a cluster number, the
     cached free count (if any) is the number of free entries -/
@@ -255,7 +259,7 @@ theorem countFreeV_allocLink {g : Nat → FatValue} {total c : Nat} (prev : Opti
     simp only [allocLinkV]; omega
 
 /-- `FileSystem::alloc_cluster(prev, zero = false)` on a volume already marked dirty -/
-theorem run_allocClusterFs (prev : Option Nat) (d : Dev) (hfa : d.failAt = none) (hcd : d.fs.curDirty = true)
+theorem run_allocClusterFs_fine (prev : Option Nat) (d : Dev) (hfa : d.failAt = none) (hcd : d.fs.curDirty = true)
     (hwf : d.img.WF) (hg : Geo d.fs d.img.size) (hinfo : InfoOk d.fs d.img)
     (hp : ∀ p, prev = some p → 2 ≤ p ∧ p < d.fs.totalClusters + 2 ∧ tabView d.fs d.img p ≠ .free) :
     (allocFindV (tabView d.fs d.img) d.fs.fsInfo.next d.fs.totalClusters = none ∧
@@ -265,12 +269,14 @@ theorem run_allocClusterFs (prev : Option Nat) (d : Dev) (hfa : d.failAt = none)
       tabView d'.fs d'.img = allocLinkV (tabView d.fs d.img) prev c ∧ InfoOk d'.fs d'.img ∧
       (∀ q, (q < (fatSliceOf d.fs).beginOff ∨
           (fatSliceOf d.fs).beginOff + (fatSliceOf d.fs).mirrors * (fatSliceOf d.fs).size ≤ q) →
+        d'.img.getByte q = d.img.getByte q) ∧
+      (∀ q, ¬ FatEntryPos d.fs c q → (∀ p, prev = some p → ¬ FatEntryPos d.fs p q) →
         d'.img.getByte q = d.img.getByte q)) := by
   unfold allocClusterFs
   rw [run_bind_ok (run_getFs d)]
   simp only
-  rcases run_allocCluster d.fs (fatSliceOf d.fs) (isFatSlice_self _) prev d.fs.fsInfo.next d hfa hcd hwf hg hinfo.hint
-      (fun p h => (hp p h).2.1) with ⟨hnone, d1, hr, hs1⟩ | ⟨c, d1, s1, hsome, hr, hst, hfs, htv, hfr⟩
+  rcases run_allocCluster_fine d.fs (fatSliceOf d.fs) (isFatSlice_self _) prev d.fs.fsInfo.next d hfa hcd hwf hg hinfo.hint
+      (fun p h => (hp p h).2.1) with ⟨hnone, d1, hr, hs1⟩ | ⟨c, d1, s1, hsome, hr, hst, hfs, htv, hfr, hfine⟩
   · left
     exact ⟨hnone, d1, by rw [run_bind_error hr], hs1⟩
   · right
@@ -311,7 +317,7 @@ theorem run_allocClusterFs (prev : Option Nat) (d : Dev) (hfa : d.failAt = none)
         cases n with
         | zero => exact absurd hfree hne0
         | succ m => rfl
-    refine ⟨c, { d1 with fs := newFs }, hsome, hrun, ?_, ?_, ?_, ?_, hfr⟩
+    refine ⟨c, { d1 with fs := newFs }, hsome, hrun, ?_, ?_, ?_, ?_, hfr, hfine⟩
     · exact ⟨hst.failAt, hst.size, hst.wf, hgeo, hst.clock⟩
     · show newFs.curDirty = true
       rw [← hnew]; exact hcd
@@ -333,5 +339,39 @@ theorem run_allocClusterFs (prev : Option Nat) (d : Dev) (hfa : d.failAt = none)
           have hm := hinfo.count m hfree
           have : n = m - 1 := (Option.some.inj hn).symm
           omega
+
+/-! ### the same statements without the entry-window frame (the form other modules use) -/
+
+theorem run_allocCluster (fs : FsState) (s : DiskSlice) (hs : IsFatSlice fs s) (prev hint : Option Nat) (d : Dev)
+    (hfa : d.failAt = none) (hcd : d.fs.curDirty = true) (hwf : d.img.WF) (hg : Geo fs d.img.size)
+    (hh : ∀ n, hint = some n → 2 ≤ n) (hp : ∀ p, prev = some p → p < fs.totalClusters + 2) :
+    (allocFindV (tabView fs d.img) hint fs.totalClusters = none ∧
+      ∃ d', run (Table.allocCluster DiskSlice.strm fs.fatType s prev hint fs.totalClusters) d = (.error .noSpace, d') ∧
+        SameStore d d') ∨
+    (∃ c d' s', allocFindV (tabView fs d.img) hint fs.totalClusters = some c ∧
+      run (Table.allocCluster DiskSlice.strm fs.fatType s prev hint fs.totalClusters) d = (.ok (c, s'), d') ∧
+      DevStep d d' ∧ d'.fs = d.fs ∧
+      tabView fs d'.img = allocLinkV (tabView fs d.img) prev c ∧
+      (∀ q, (q < (fatSliceOf fs).beginOff ∨
+          (fatSliceOf fs).beginOff + (fatSliceOf fs).mirrors * (fatSliceOf fs).size ≤ q) →
+        d'.img.getByte q = d.img.getByte q)) := by
+  rcases run_allocCluster_fine fs s hs prev hint d hfa hcd hwf hg hh hp with h | ⟨c, d', s', h1, h2, h3, h4, h5, h6, _⟩
+  · exact Or.inl h
+  · exact Or.inr ⟨c, d', s', h1, h2, h3, h4, h5, h6⟩
+
+theorem run_allocClusterFs (prev : Option Nat) (d : Dev) (hfa : d.failAt = none) (hcd : d.fs.curDirty = true)
+    (hwf : d.img.WF) (hg : Geo d.fs d.img.size) (hinfo : InfoOk d.fs d.img)
+    (hp : ∀ p, prev = some p → 2 ≤ p ∧ p < d.fs.totalClusters + 2 ∧ tabView d.fs d.img p ≠ .free) :
+    (allocFindV (tabView d.fs d.img) d.fs.fsInfo.next d.fs.totalClusters = none ∧
+      ∃ d', run (allocClusterFs prev false) d = (.error .noSpace, d') ∧ SameStore d d') ∨
+    (∃ c d', allocFindV (tabView d.fs d.img) d.fs.fsInfo.next d.fs.totalClusters = some c ∧
+      run (allocClusterFs prev false) d = (.ok c, d') ∧ DevStep d d' ∧ d'.fs.curDirty = true ∧
+      tabView d'.fs d'.img = allocLinkV (tabView d.fs d.img) prev c ∧ InfoOk d'.fs d'.img ∧
+      (∀ q, (q < (fatSliceOf d.fs).beginOff ∨
+          (fatSliceOf d.fs).beginOff + (fatSliceOf d.fs).mirrors * (fatSliceOf d.fs).size ≤ q) →
+        d'.img.getByte q = d.img.getByte q)) := by
+  rcases run_allocClusterFs_fine prev d hfa hcd hwf hg hinfo hp with h | ⟨c, d', h1, h2, h3, h4, h5, h6, h7, _⟩
+  · exact Or.inl h
+  · exact Or.inr ⟨c, d', h1, h2, h3, h4, h5, h6, h7⟩
 
 end FatVerif.FileSim
